@@ -261,6 +261,44 @@ def run(ctx):
         ctx.ob("R-SIB", "C09.8", fp_, "FlowProposal (accumulated weights): points and weights are accumulated together, normalised by the running maximum, one uniform per accumulated point, and the pool is the accepted accumulated rows", ok3, "")
     ctx.floor("C09.8", 5)
 
+    # ---- C09.9 the latent draw is bound to the current contour radius ------------------------------------------------
+    # (a) constructor-derived state never goes stale: NDimensionalTruncatedGaussian derives u_max from radius / fuzz in
+    #     __init__ and nothing recomputes it, so storing a new radius on an existing instance does not move the truncation
+    from ..rules import derived as _der
+    deps_, hits_ = _der.stale_stores(prog)
+    tg_ = prog.cls("nessai.utils.sampling:NDimensionalTruncatedGaussian")
+    ctx.require(tg_ in deps_ and "radius" in deps_[tg_], "NDimensionalTruncatedGaussian: u_max is no longer derived from the radius in __init__ only")
+    for c_, d_ in sorted(deps_.items(), key=lambda kv: kv[0].qual):
+        bad_ = [(f_, n_) for f_, n_, c2_, a_, ds_ in hits_ if c2_ is c_]
+        ctx.ob("R-DERIVED", "C09.9", (bad_[0][0] if bad_ else c_.methods["__init__"]), f"attributes that {c_.name}.__init__ derives once ({', '.join(f'{a} -> {ds}' for a, ds in sorted(d_.items()))}) are not invalidated by a later store to their inputs", not bad_, "; ".join(f"`{src(n_)}` is stored in {f_.short}: {sorted(d_[n_.attr])} keeps describing the old value" for f_, n_ in bad_), node=(bad_[0][1] if bad_ else None))
+    # (b) prep_latent_prior builds the draw function from self.r on every path of the radius-dependent modes, and
+    #     populate calls it after the radius of this population was stored
+    pl_ = ctx.fn(tables.FP + ".prep_latent_prior")
+    pla = FA(pl_)
+    binds_ = pla.find(lambda s_: isinstance(s_, ast.Assign) and any(src(t_) == "self._draw_func" for t_ in s_.targets))
+    ctx.require(len(binds_) >= 3, "prep_latent_prior: bindings of self._draw_func not found")
+    from ..q import holds as _h9
+    for b_ in binds_:
+        v_ = pla.stmt(b_).value
+        facts_ = guard_facts(pla, b_)
+        if _h9(facts_, "self.latent_prior == 'flow'", True):
+            continue  # the flow's own latent distribution has no contour radius
+        reads_r = lambda e_: any(isinstance(x_, ast.Attribute) and src(x_) == "self.r" for x_ in ast.walk(e_))
+        ok_ = reads_r(v_)
+        why_ = f"`{src(v_)[:60]}`"
+        if not ok_ and isinstance(v_, ast.Attribute) and isinstance(v_.value, ast.Attribute):
+            # bound method of an object: that object must be constructed from self.r on every path to this binding
+            owner_ = src(v_.value)
+            ctors_ = pla.find(lambda s_: isinstance(s_, ast.Assign) and any(src(t_) == owner_ for t_ in s_.targets) and isinstance(s_.value, ast.Call) and reads_r(s_.value))
+            ok_ = bool(ctors_) and pla.cfg.must_pass(pla.cfg.entry, b_, ctors_)
+            why_ = f"`{src(pla.stmt(b_))[:60]}`: `{owner_}` is " + ("built from self.r on every path" if ok_ else "not (re)built from self.r on every path to this binding")
+        ctx.ob("R-ORDER", "C09.9", pl_, "the latent draw function of a radius-truncated prior is built from the current radius self.r on every path", ok_, why_, node=pla.stmt(b_))
+    pp_ = FA(fp_)
+    rs_ = pp_.find(lambda s_: isinstance(s_, ast.Assign) and any(src(t_) == "self.r" for t_ in s_.targets))
+    pc_ = pp_.find_calls("self.prep_latent_prior")
+    ctx.ob("R-ORDER", "C09.9", fp_, "populate prepares the latent draw after the radius of this population was stored (self.r = ... precedes prep_latent_prior on every path)", len(pc_) == 1 and bool(rs_) and pp_.cfg.must_pass(pp_.cfg.entry, pc_[0][0], rs_) and not any(pp_.cfg.can_follow(pc_[0][0], r_) for r_ in rs_), "")
+    ctx.floor("C09.9", 5)
+
     # ---- C09.7 field order of what the proposals hand to the live array ------------------------------
     from ..rules import fieldorder as _fo
     from .. import tables as _t
@@ -333,6 +371,8 @@ _IP = "nessai/proposal/importance.py"
 _RJ = "nessai/proposal/rejection.py"
 _AN = "nessai/proposal/analytic.py"
 MUTANTS = [
+    {"id": "latent-draw-before-radius", "file": _FP, "old": "        self.prep_latent_prior()\n", "new": "", "count": 1, "expect": "C09.9"},
+    {"id": "truncated-gaussian-radius-assigned", "file": _FP, "old": "            self._draw_func = self._populate_dist.sample", "new": "            self._populate_dist.radius = self.r\n            self._draw_func = self._populate_dist.sample", "expect": "derives once"},
     {"id": "prime-prior-bounds-stale", "file": "nessai/reparameterisations/rescale.py", "old": "            logger.debug(f\"New bounds: {self.bounds}\")\n            self.update_prime_prior_bounds()", "new": "            logger.debug(f\"New bounds: {self.bounds}\")", "expect": "the only prior gate of the x'-prior path"},
     {"id": "analytic-no-prior", "file": _AN, "old": '        self.samples["logP"] = self.model.batch_evaluate_log_prior(\n            self.samples\n        )\n', "new": "", "expect": "pool log-priors come from"},
     {"id": "rejection-likelihood-on-all", "file": _RJ, "old": '        self.samples["logL"] = self.model.batch_evaluate_log_likelihood(\n            self.samples\n        )', "new": '        x["logL"] = self.model.batch_evaluate_log_likelihood(x)\n        self.samples = x[indices]', "expect": "C09.1"},
